@@ -19,6 +19,18 @@ EXTENDS Naturals, Sequences, Word
 \* over a contract-abiding reader.
 OpBound(n) == 4 * n + 16
 
+\* Memory reserved while decoding is proportional to the bytes PRESENT in the
+\* input, not to a length the input merely declares: the largest single
+\* allocation requested during a decode of an n-byte input.  (The constant
+\* covers the decoder's fixed-size buffers: BufReader 8 KiB, up to 1 MiB that
+\* ValueReader::read_bytes allocates without verifying first.)  The property
+\* text demands termination, linear time and "message or error"; it does not
+\* bound memory, so an excess is reported as DRIFT unless it ends in an
+\* allocation failure (abort) or a capacity-overflow panic, which are
+\* violations by themselves.
+AllocBound(n) == 64 * n + 4194304
+BoundedAllocW(maxalloc, n) == WLe(maxalloc, FromNat(AllocBound(n)))
+
 \* "returns a message or an error"
 LegalOutcome(o) == o \in {"ok", "err"}
 
